@@ -251,21 +251,25 @@ def convOf {β : Type} (proc : List (Str × (Str → β))) (dflt : Str → β) (
   | some f => f v
   | none => dflt v
 
-/-- `current_d` of one data row -/
-def entryOf {β : Type} (proc : List (Str × (Str → β))) (dflt : Str → β) (header vals : List Str) :
-    List (Str × β) :=
-  mkDict ((header.tail.zip vals.tail).map (fun kv => (kv.1, convOf proc dflt kv.1 kv.2)))
+/-- `current_d` of one data row; `conv k v` is what column `k` makes of the text `v` -/
+def entryOf {β : Type} (conv : Str → Str → β) (header vals : List Str) : List (Str × β) :=
+  mkDict ((header.tail.zip vals.tail).map (fun kv => (kv.1, conv kv.1 kv.2)))
 
 abbrev Mapping (β : Type) := List (Str × List (Str × β))
 
-/-- `MetadataMap.from_file(lines, strip_quotes, suppress_stripping, header, process_fns)` -/
-def fromFile {β : Type} (o : Opts) (hdr0 : List Str) (proc : List (Str × (Str → β))) (dflt : Str → β)
+/-- `MetadataMap.from_file` with the per-column conversions as one function of (column, text) -/
+def fromFileC {β : Type} (o : Opts) (hdr0 : List Str) (conv : Str → Str → β)
     (lines : List Str) : Except Err (Mapping β) :=
   let st := lines.foldl (stepLine o) { header := hdr0, rows := [] }
   if st.header.isEmpty then .error .other
   else if st.rows.isEmpty then .error .other
   else if ¬ (st.rows.map (fun r => r.headD [])).Nodup then .error .other
-  else .ok (st.rows.map (fun vals => (vals.headD [], entryOf proc dflt st.header vals)))
+  else .ok (st.rows.map (fun vals => (vals.headD [], entryOf conv st.header vals)))
+
+/-- `MetadataMap.from_file(lines, strip_quotes, suppress_stripping, header, process_fns)` -/
+def fromFile {β : Type} (o : Opts) (hdr0 : List Str) (proc : List (Str × (Str → β))) (dflt : Str → β)
+    (lines : List Str) : Except Err (Mapping β) :=
+  fromFileC o hdr0 (convOf proc dflt) lines
 
 /-! ### the row grammar -/
 
@@ -369,13 +373,13 @@ def fileRows (f : List GLine) : List (List Field) := f.filterMap GLine.rowFields
 def rowVals (o : Opts) (n : Nat) (fs : List Field) : List Str := pad n (fs.map (Field.expect o))
 
 /-- the relation the rows describe: ID ↦ {header[c] ↦ conv_c(row[c])} -/
-def relOf {β : Type} (o : Opts) (hdr0 : List Str) (proc : List (Str × (Str → β))) (dflt : Str → β)
+def relOf {β : Type} (o : Opts) (hdr0 : List Str) (conv : Str → Str → β)
     (f : List GLine) : Except Err (Mapping β) :=
   let H := fileHeader hdr0 f
   let rows := (fileRows f).map (rowVals o H.length)
   if rows.isEmpty then .error .other
   else if ¬ (rows.map (fun r => r.headD [])).Nodup then .error .other
-  else .ok (rows.map (fun v => (v.headD [], entryOf proc dflt H v)))
+  else .ok (rows.map (fun v => (v.headD [], entryOf conv H v)))
 
 /-! ## conversions of the `add-metadata` command -/
 
@@ -628,7 +632,7 @@ def holds {α : Type} [DecidableEq α] : Input α → Output α → Bool
      | .ok after => ax != .bad && delHolds t keys ax after
      | .error e => ax == .bad && e == .unknownAxis)
   | .parse o hdr0 proc f, .mapping r =>
-    parseHolds (relOf o hdr0 proc convIdent f) (r.map textMapping)
+    parseHolds (relOf o hdr0 (convOf proc convIdent) f) (r.map textMapping)
   | _, _ => false
 
 /-! ## JSON glue -/
@@ -745,16 +749,7 @@ def renderAgrees (f : FileReq) : Bool :=
 def specOf (o : Opts) (hdr0 : List Str) (conv : Str → Str → Val) (f : FileReq) :
     Option (Except Err (Mapping Val)) :=
   match f.gram with
-  | some g =>
-    if fileOk o hdr0 g then
-      -- the conversions enter the relation as a function of the column name
-      let H := fileHeader hdr0 g
-      let rows := (fileRows g).map (rowVals o H.length)
-      if rows.isEmpty then some (.error .other)
-      else if ¬ (rows.map (fun r => r.headD [])).Nodup then some (.error .other)
-      else some (.ok (rows.map (fun v => (v.headD [],
-        mkDict ((H.tail.zip v.tail).map (fun kv => (kv.1, conv kv.1 kv.2)))))))
-    else none
+  | some g => if fileOk o hdr0 g then some (relOf o hdr0 conv g) else none
   | none => none
 
 def handleAdd (req : Json) : R Json := do
